@@ -1776,8 +1776,8 @@ class NNDescent:
             )
 
         indices, dists = self._deheap_function(indices, dists)
-        # Sort to input graph_data order
-        indices = self._vertex_order[indices]
+        # Sort to input graph_data order, keeping the -1 "no neighbor found" marker
+        indices = np.where(indices >= 0, self._vertex_order[indices], -1)
 
         if self._distance_correction is not None:
             dists = self._distance_correction(dists)
@@ -2231,11 +2231,12 @@ class PyNNDescentTransformer(BaseEstimator, TransformerMixin):
         if self.verbose:
             print(ts(), "Constructing neighbor matrix")
         result = coo_matrix((n_samples_transform, self.n_samples_fit), dtype=np.float32)
+        found = indices.ravel() >= 0
         result.row = np.repeat(
             np.arange(indices.shape[0], dtype=np.int32), indices.shape[1]
-        )
-        result.col = indices.ravel()
-        result.data = distances.ravel()
+        )[found]
+        result.col = indices.ravel()[found]
+        result.data = distances.ravel()[found]
 
         return result.tocsr()
 
